@@ -79,6 +79,8 @@ type Case struct {
 	Junction string     `json:"junction,omitempty"`
 	Left     string     `json:"left,omitempty"`
 	Right    string     `json:"right,omitempty"`
+	// Prior: an oligo evaluated immediately before the judged calls, its results discarded
+	Prior string `json:"prior,omitempty"`
 }
 
 func applyCase(s string, mask uint64) string {
@@ -110,9 +112,35 @@ func checkPoint(upper, in string, oligo, na, mg float64) (float64, error) {
 	return tm, firstErr
 }
 
+// siblings of a sequence: the same length with the first, the middle or the last letter changed - the same suffix,
+// the same ends, the same prefix. They are evaluated first and their results discarded: a result must depend on the
+// call's own arguments only.
+func siblings(s string) []string {
+	next := func(c byte) byte { return "CGTA"[strings.IndexByte("ACGT", c)&3] }
+	var out []string
+	for _, p := range []int{0, len(s) / 2, len(s) - 1} {
+		if p >= 0 && p < len(s) {
+			b := []byte(s)
+			b[p] = next(b[p])
+			out = append(out, string(b))
+		}
+	}
+	return out
+}
+
 func check(c Case) error {
 	upper := c.Seq.String()
 	in := applyCase(upper, c.CaseMask)
+	for _, sib := range siblings(upper) {
+		_ = primers.MeltingTemp(sib)
+		_, _, _ = primers.SantaLucia(sib, 500e-9, 50e-3, 0)
+		_ = primers.MarmurDoty(sib)
+	}
+	if c.Prior != "" {
+		_ = primers.MeltingTemp(c.Prior)
+		_, _, _ = primers.SantaLucia(c.Prior, 500e-9, 50e-3, 0)
+		_ = primers.MarmurDoty(c.Prior)
+	}
 	// Marmur-Doty
 	at := strings.Count(upper, "A") + strings.Count(upper, "T")
 	gc := strings.Count(upper, "G") + strings.Count(upper, "C")
@@ -294,5 +322,20 @@ func gen(t *rapid.T) Case {
 }
 
 func TestSub_random(t *testing.T) { vk.RunRapid(t, subRandom) }
+
+var subCollisions = vk.Register(&vk.Sub[Case]{Name: "collisions", Check: check, NonTrivial: nonTrivial})
+
+// TestSub_collisions: the two oligos of every checksum-colliding pair (vk.CollidingPairs) one directly after the other.
+func TestSub_collisions(t *testing.T) {
+	vk.RunEnum(t, subCollisions, "every checksum-colliding pair of 30-mers x both orders", true, func(yield func(Case) bool) {
+		for _, pr := range vk.CollidingPairs() {
+			for _, o := range [][2]string{{pr.A, pr.B}, {pr.B, pr.A}} {
+				if !yield(Case{Seq: vk.SeqSpec{Lit: o[1]}, Prior: o[0], CaseMask: 0x0f0f, Oligo: 250e-9, Na: 0.1, Mg: 0.002, Factor: 2}) {
+					return
+				}
+			}
+		}
+	})
+}
 
 func TestReplay(t *testing.T) { vk.Replay(t) }
